@@ -142,11 +142,9 @@ Definition w_symbol_nil := (cfg_flat, OSym [110; 105; 108]).
 (* #\( and the character with code 0 *)
 Definition w_char_paren := (cfg_flat, OChr 40).
 Definition w_char_nul := (cfg_flat, OChr 0).
-(* (a |.| b) is printed (a . b) *)
-Definition w_symbol_dot := (cfg_flat, OList [OSym [97]; OSym [46]; OSym [98]]).
 
 Definition refutation_witnesses : list (pcfg * obj) :=
-  [w_string_quote; w_single_float; w_integral_double; w_ratio_radix; w_array_radix; w_symbol_nil; w_char_paren; w_char_nul; w_symbol_dot].
+  [w_string_quote; w_single_float; w_integral_double; w_ratio_radix; w_array_radix; w_symbol_nil; w_char_paren; w_char_nul].
 Theorem outside_guard_refuted : forallb (fun w => refuted (fst w) (snd w)) refutation_witnesses = true.
 Proof. vm_compute. reflexivity. Qed.
 (* what the model makes of some of them *)
@@ -157,6 +155,9 @@ Proof. vm_compute. reflexivity. Qed.
 Example bar_in_name_escaped : model_text cfg_flat (OSym [97; 124; 98]) = Some [124; 97; 92; 124; 98; 124] /\
   model_text cfg_flat (OSym [92; 7]) = Some [124; 92; 92; 92; 117; 48; 48; 48; 55; 124].
 Proof. vm_compute. split; reflexivity. Qed.
+(* repaired (C03-9): (a |.| b) keeps the bars around the dot *)
+Example dot_symbol_barred : model_text cfg_flat (OList [OSym [97]; OSym [46]; OSym [98]]) = Some [40; 97; 32; 124; 46; 124; 32; 98; 41].
+Proof. vm_compute. reflexivity. Qed.
 Example integral_double_reads_fixnum : model_read (model_text (fst w_integral_double) (snd w_integral_double)) = Some [OInt false 1].
 Proof. vm_compute. reflexivity. Qed.
 Example array_radix_text : model_text (fst w_array_radix) (snd w_array_radix) =
